@@ -101,6 +101,22 @@ def adjoint_fails(case):
         d_bad = int(np.argmax(np.max(np.abs(lhs - rhs), axis=1) > 1e-7 * scale))
         return 'adjoint-%s: <xbar,v> != <ybar,F\'(x)v> at order %d (%.6g vs %.6g)' % (
             tag, d_bad, lhs[d_bad].ravel()[0], rhs[d_bad].ravel()[0])
+    # a second reverse sweep of the same trace with another seed (rows of a Jacobian are assembled this way):
+    # the identity must hold for it as well
+    ybar2 = np.round(r.uniform(-1, 1, size=y.data.shape) * 8) / 8
+    ybar2[ybar2 == 0] = -0.25
+    try:
+        with np.errstate(all='ignore'):
+            cg.pullback([UTPM(ybar2.copy())])
+    except Exception as ex:
+        return 'exception-second-sweep-%s: the second reverse sweep raised %s' % (tag, type(ex).__name__)
+    xbars2 = [np.array(f.xbar.data) for f in fx]
+    if all(np.all(np.isfinite(xb)) for xb in xbars2):
+        lhs2 = sum(cauchy_pair(xb, v) for xb, v in zip(xbars2, vs))
+        rhs2 = cauchy_pair(ybar2, dy)
+        scale2 = max(1.0, float(np.max(np.abs(lhs2))), float(np.max(np.abs(rhs2))))
+        if np.max(np.abs(lhs2 - rhs2)) > 1e-7 * scale2:
+            return 'adjoint-second-sweep-%s: <xbar,v> != <ybar,F\'(x)v> for a second reverse sweep of the same trace' % tag
     return None
 
 
@@ -129,6 +145,21 @@ def single_op_programs(rng):
             p = gen_program(rng, input_shapes=shapes, maxsteps=2 if k in ('transpose', 'reshape') else 1, kinds=[k])
             if p['steps']:
                 progs.append(p)
+    # a buffer entry written twice (the second write overwrites the first) with a non-linear consumer afterwards, and an
+    # in-place accumulator buf[0] = buf[0]*x[1]; buf[0] = buf[0]*x[2]: the stored old contents matter for every sweep
+    progs.append({'inputs': [[3]], 'steps': [{'op': 'zeros', 'shape': [1], 'like': 0}, {'op': 'getitem', 'a': 0, 'idx': [0], 'bare': False},
+                                              {'op': 'setitem', 'buf': 1, 'idx': [0], 'val': 2}, {'op': 'getitem', 'a': 0, 'idx': [1], 'bare': False},
+                                              {'op': 'setitem', 'buf': 1, 'idx': [0], 'val': 3}, {'op': 'ew', 'fn': 'pow2', 'a': 1}],
+                  'out': 4, 'out_shape': [1]})
+    progs.append({'inputs': [[3]], 'steps': [{'op': 'zeros', 'shape': [2], 'like': 0}, {'op': 'getitem', 'a': 0, 'idx': [0], 'bare': True},
+                                              {'op': 'setitem', 'buf': 1, 'idx': [0], 'val': 2}, {'op': 'getitem', 'a': 0, 'idx': [1], 'bare': False},
+                                              {'op': 'setitem', 'buf': 1, 'idx': [1], 'val': 3},
+                                              {'op': 'getitem', 'a': 1, 'idx': [0], 'bare': True}, {'op': 'bin', 'fn': 'mul', 'a': 4, 'b': 3},
+                                              {'op': 'setitem', 'buf': 1, 'idx': [0], 'val': 5},
+                                              {'op': 'getitem', 'a': 1, 'idx': [0], 'bare': False}, {'op': 'getitem', 'a': 0, 'idx': [2], 'bare': False},
+                                              {'op': 'bin', 'fn': 'mul', 'a': 6, 'b': 7}, {'op': 'setitem', 'buf': 1, 'idx': [0], 'val': 8},
+                                              {'op': 'ew', 'fn': 'sin', 'a': 1}],
+                  'out': 9, 'out_shape': [2]})
     for kind in ['inv', 'solve', 'det', 'logdet', 'trace', 'qr', 'cholesky', 'eigh', 'lu', 'svd', 'qr_full']:
         for n in (2, 3):
             sym = kind in ('cholesky', 'eigh', 'logdet')
